@@ -199,6 +199,9 @@ let matfn name args =
   | "adapt_xyz" -> let l = List.map f32h args in mat_s (adaptF (vec_of (take 3 l)) (vec_of (drop 3 l)))
   | "adapt_xyy" -> let l = List.map f32h args in mat_s (adapt_xyyF (xyy_of (take 3 l)) (xyy_of (drop 3 l)))
   | "apply" -> let m = mat_of (List.map f64h (take 9 args)) in vec_s h32 (applyF m (vec_of (List.map f32h (drop 9 args))))
+  | "apply32" -> let l = List.map f32h args in
+    (match mat32_apply (take 9 l) (List.nth l 9) (List.nth l 10) (List.nth l 11) with
+     | [x; y; z] -> String.concat " " [h32 x; h32 y; h32 z] | _ -> "BAD")
   | "bradford_inverse" -> mat_s bradford_inverse
   | _ -> "BAD-REQUEST"
 
